@@ -555,6 +555,8 @@ struct ImageCheck<'a> {
     decode: bool,
     /// also compare hash_table_utilization() of the recovered handle with the decoded image
     occupancy: bool,
+    /// reopen once more right after the follow-up commit
+    reopen_after_follow_up: bool,
     /// run the follow-up commit BEFORE anything is read from the recovered store (the side is
     /// taken from sync_seqn alone), so that the first operation after recovery meets cold caches;
     /// the audit that follows still compares every key with the chosen side + the follow-up batch
@@ -681,6 +683,8 @@ fn check_image(ic: &ImageCheck, img: &DirImage, sides: &Sides, t: u64, what: &st
         audit::<B3>(&n, &model, ic.uni, AuditFlags::ALL).map_err(|m| viol("follow-up", format!("{what}: after a follow-up commit: {m}")))?;
         // the follow-up commit must leave a directory that opens again (before a rollback tidies
         // the log): a record appended behind a stale one only shows at the NEXT open
+        // (process-crash images only; the power-loss enumeration is ten times larger)
+        if ic.reopen_after_follow_up {
         drop(n);
         n = match std::panic::catch_unwind(std::panic::AssertUnwindSafe(|| driver::open_nomt_retry::<B3>(dir, ic.cfg, 10))) {
             Err(_) => return Err(viol("reopen-after-follow-up", format!("{what}: after recovery and a follow-up commit, Nomt::open panicked (at {})", crate::last_panic_location()))),
@@ -688,6 +692,7 @@ fn check_image(ic: &ImageCheck, img: &DirImage, sides: &Sides, t: u64, what: &st
             Ok(Ok(n2)) => n2,
         };
         audit::<B3>(&n, &model, ic.uni, AuditFlags::ALL).map_err(|m| viol("reopen-after-follow-up", format!("{what}: after recovery, a follow-up commit and another reopen: {m}")))?;
+        }
         if ic.cfg.rollback && model.can_serve(1) {
             match n.rollback(1) {
                 Ok(()) => {
@@ -703,17 +708,6 @@ fn check_image(ic: &ImageCheck, img: &DirImage, sides: &Sides, t: u64, what: &st
         }
     }
     drop(n);
-    // what the follow-up left behind must open again (a second record appended behind a stale
-    // one, a log tail that was not cut at the first open … only show at the NEXT open)
-    if ic.follow_up {
-        match std::panic::catch_unwind(std::panic::AssertUnwindSafe(|| driver::open_nomt_retry::<B3>(dir, ic.cfg, 10))) {
-            Err(_) => return Err(viol("reopen-after-follow-up", format!("{what}: after recovery, a follow-up commit and rollback, Nomt::open panicked (at {})", crate::last_panic_location()))),
-            Ok(Err(e)) => return Err(viol("reopen-after-follow-up", format!("{what}: after recovery, a follow-up commit and rollback, the directory does not open again: {e:#}"))),
-            Ok(Ok(n2)) => {
-                audit::<B3>(&n2, &model, ic.uni, AuditFlags::ALL).map_err(|m| viol("reopen-after-follow-up", format!("{what}: after recovery, a follow-up commit, rollback and another reopen: {m}")))?;
-            }
-        }
-    }
     // nested: crash during the recovery just performed
     if depth == 0 {
         if let Some(mode) = ic.nested {
@@ -733,6 +727,7 @@ fn check_image(ic: &ImageCheck, img: &DirImage, sides: &Sides, t: u64, what: &st
                     nested: None,
                     decode: ic.decode,
                     occupancy: ic.occupancy,
+                    reopen_after_follow_up: false,
                 };
                 // recovery does not change the logical state: both sides stay acceptable, and
                 // "new required" carries over.
@@ -1037,6 +1032,7 @@ impl CrashX {
                 nested: if nested { Some(if mode == "c03" { "c03" } else { "c04" }) } else { None },
                 decode: case["decode"].as_bool().unwrap_or(mode == "c03"),
                 occupancy: case["occupancy"].as_bool().unwrap_or(false),
+                reopen_after_follow_up: mode == "c03",
             };
             // an operation with very many file operations may be given a stride: every s-th cut
             // (plus the last three) — reported as a goal, the evidence's `exhaustive` then refers
@@ -1903,6 +1899,7 @@ impl CrashX {
                 nested: if case["nested"].as_bool().unwrap_or(true) { Some("c03") } else { None },
                 decode: true,
                 occupancy: true,
+                reopen_after_follow_up: true,
             };
             if let Err(v) = check_image(&ic, &raw, &sides, 1, &format!("{what}; the state left behind"), &mut out, 0, 5, &mut capped) {
                 found.entry(v.fingerprint).or_insert(v.msg);
